@@ -142,50 +142,14 @@ func checkWatchChannelPeers(p *Prog, w *watchRoles, res *Result, rule string) {
 	}
 	peersOf := func(ch ssa.Value, send bool) []peer {
 		var out []peer
+		is := func(v ssa.Value) bool { return p.resolveDeep(v) == ch }
 		for _, b := range wf.Blocks {
 			for _, ins := range b.Instrs {
-				switch x := ins.(type) {
-				case *ssa.Send:
-					if send && p.resolveDeep(x.Chan) == ch {
-						out = append(out, peer{x, false})
-					}
-				case *ssa.UnOp:
-					if !send && x.Op == token.ARROW && p.resolveDeep(x.X) == ch {
-						out = append(out, peer{x, false})
-					}
-				case *ssa.Select:
-					for _, st := range x.States {
-						if p.resolveDeep(st.Chan) == ch && (st.Dir == types.SendOnly) == send {
-							out = append(out, peer{x, false})
-						}
-					}
-				case ssa.CallInstruction:
-					if _, isDefer := x.(*ssa.Defer); isDefer {
-						continue
-					}
-					for ai, a := range x.Common().Args {
-						if p.resolveDeep(a) != ch {
-							continue
-						}
-						for _, callee := range p.calleesOf(x) {
-							if callee.Blocks != nil && ai < len(callee.Params) && p.usesChanParam(callee, callee.Params[ai], send, 0) {
-								_, isGo := x.(*ssa.Go)
-								out = append(out, peer{x, isGo})
-							}
-						}
-					}
-					// a closure that captured the channel
-					if mc, ok := x.Common().Value.(*ssa.MakeClosure); ok {
-						fn := mc.Fn.(*ssa.Function)
-						for bi, bnd := range mc.Bindings {
-							if p.resolveDeep(bnd) == ch || bindingCellHolds(p, bnd, ch) {
-								if p.usesChanFree(fn, fn.FreeVars[bi], send) {
-									_, isGo := x.(*ssa.Go)
-									out = append(out, peer{x, isGo})
-								}
-							}
-						}
-					}
+				switch k := p.chanUseOf(ins, is, func(bnd ssa.Value) bool { return p.resolveDeep(bnd) == ch || bindingCellHolds(p, bnd, ch) }, send, 0); k {
+				case peerSync:
+					out = append(out, peer{ins, false})
+				case peerGo:
+					out = append(out, peer{ins, true})
 				}
 			}
 		}
@@ -239,84 +203,93 @@ func bindingCellHolds(p *Prog, bnd ssa.Value, v ssa.Value) bool {
 	return ok && p.resolveDeep(cv) == v
 }
 
-// usesChanParam: the function sends on (send) / receives from (!send) the channel it gets as parameter prm, itself,
-// in a closure, or in a function of the repository it hands the parameter to.
-func (p *Prog) usesChanParam(f *ssa.Function, prm *ssa.Parameter, send bool, depth int) bool {
-	if depth > 3 {
-		return false
+type peerKind int
+
+const (
+	peerNone peerKind = iota
+	peerSync          // uses the channel in the calling goroutine
+	peerGo            // hands the channel to a goroutine that uses it
+)
+
+// chanUseOf: what one instruction does with the channel recognised by is (an operand) / isBinding (a closure binding):
+// sends on it (send) or receives from it (!send) right here, calls something that does, or starts a goroutine that does.
+func (p *Prog) chanUseOf(ins ssa.Instruction, is func(ssa.Value) bool, isBinding func(ssa.Value) bool, send bool, depth int) peerKind {
+	if depth > 4 {
+		return peerNone
 	}
-	is := func(v ssa.Value) bool { return p.resolveDeep(v) == ssa.Value(prm) }
-	for _, fn := range withAnon(f) {
-		for _, b := range fn.Blocks {
-			for _, ins := range b.Instrs {
-				switch x := ins.(type) {
-				case *ssa.Send:
-					if send && is(x.Chan) {
-						return true
-					}
-				case *ssa.UnOp:
-					if !send && x.Op == token.ARROW && is(x.X) {
-						return true
-					}
-				case *ssa.Select:
-					for _, st := range x.States {
-						if is(st.Chan) && (st.Dir == types.SendOnly) == send {
-							return true
-						}
-					}
-				case ssa.CallInstruction:
-					for ai, a := range x.Common().Args {
-						if !is(a) {
-							continue
-						}
-						for _, callee := range p.calleesOf(x) {
-							if callee.Blocks != nil && ai < len(callee.Params) && p.usesChanParam(callee, callee.Params[ai], send, depth+1) {
-								return true
-							}
-						}
-					}
+	switch x := ins.(type) {
+	case *ssa.Send:
+		if send && is(x.Chan) {
+			return peerSync
+		}
+	case *ssa.UnOp:
+		if !send && x.Op == token.ARROW && is(x.X) {
+			return peerSync
+		}
+	case *ssa.Select:
+		for _, st := range x.States {
+			if is(st.Chan) && (st.Dir == types.SendOnly) == send {
+				return peerSync
+			}
+		}
+	case ssa.CallInstruction:
+		if _, isDefer := x.(*ssa.Defer); isDefer {
+			return peerNone
+		}
+		_, isGo := x.(*ssa.Go)
+		k := peerNone
+		for ai, a := range x.Common().Args {
+			if !is(a) {
+				continue
+			}
+			for _, callee := range p.calleesOf(x) {
+				if callee.Blocks == nil || ai >= len(callee.Params) {
+					continue
+				}
+				prm := callee.Params[ai]
+				if kk := p.chanUseIn(callee, func(v ssa.Value) bool { return p.resolveDeep(v) == ssa.Value(prm) }, send, depth+1); kk > k {
+					k = kk
 				}
 			}
 		}
+		// a function literal that captured the channel
+		if mc, ok := resolve(x.Common().Value).(*ssa.MakeClosure); ok {
+			fn := mc.Fn.(*ssa.Function)
+			for bi, bnd := range mc.Bindings {
+				if !is(bnd) && !(isBinding != nil && isBinding(bnd)) {
+					continue
+				}
+				fv := fn.FreeVars[bi]
+				isFV := func(v ssa.Value) bool {
+					v = resolve(v)
+					if v == ssa.Value(fv) {
+						return true
+					}
+					ld, ok := v.(*ssa.UnOp)
+					return ok && ld.Op == token.MUL && ld.X == ssa.Value(fv)
+				}
+				if kk := p.chanUseIn(fn, isFV, send, depth+1); kk > k {
+					k = kk
+				}
+			}
+		}
+		if isGo && k != peerNone {
+			return peerGo
+		}
+		return k
 	}
-	return false
+	return peerNone
 }
 
-func (p *Prog) usesChanFree(f *ssa.Function, fv *ssa.FreeVar, send bool) bool {
-	is := func(v ssa.Value) bool {
-		v = resolve(v)
-		if v == ssa.Value(fv) {
-			return true
-		}
-		if ld, ok := v.(*ssa.UnOp); ok && ld.Op == token.MUL && ld.X == ssa.Value(fv) {
-			return true
-		}
-		return false
-	}
+// chanUseIn: the strongest use of the channel by the instructions of f.
+func (p *Prog) chanUseIn(f *ssa.Function, is func(ssa.Value) bool, send bool, depth int) peerKind {
+	k := peerNone
 	for _, b := range f.Blocks {
 		for _, ins := range b.Instrs {
-			switch x := ins.(type) {
-			case *ssa.Send:
-				if send && is(x.Chan) {
-					return true
-				}
-			case *ssa.UnOp:
-				if !send && x.Op == token.ARROW && is(x.X) {
-					return true
-				}
-			case ssa.CallInstruction:
-				for ai, a := range x.Common().Args {
-					if !is(a) {
-						continue
-					}
-					for _, callee := range p.calleesOf(x) {
-						if callee.Blocks != nil && ai < len(callee.Params) && p.usesChanParam(callee, callee.Params[ai], send, 1) {
-							return true
-						}
-					}
-				}
+			if kk := p.chanUseOf(ins, is, is, send, depth); kk > k {
+				k = kk
 			}
 		}
 	}
-	return false
+	return k
 }
